@@ -14,14 +14,15 @@ Norm(f) == [f EXCEPT !.bpms = SortP(f.bpms)]
 (* C02: the reader's charts are what the tokens denote; float arithmetic: a few ticks *)
 ReadClauses(e) ==
     LET f == Norm(e.file)
-        tol(d) == 4 + Len(f.bpms)
+        \* e.slack: half a tick per beat of the prefix when a bpm is not a whole number of ticks per beat (bundled maps)
+        tol(d) == 4 + Len(f.bpms) + e.slack
         n == Len(f.charts)
     IN  IF Len(e.charts) # n THEN [ chart_count |-> FALSE ]
         ELSE LET per(i) == ChartClauses(f, f.charts[i], e.charts[i], tol)
                  names == {"hits", "mines", "lifts", "fakes", "keysounds", "holds", "rolls", "header"} IN
              [ k \in names \cup {"chart_count", "tempo_present", "set_header"} |->
                  IF k = "chart_count" THEN TRUE
-                 ELSE IF k = "tempo_present" THEN \A i \in 1..n : TempoPresent(f, e.charts[i], 4 + Len(f.bpms))
+                 ELSE IF k = "tempo_present" THEN \A i \in 1..n : TempoPresent(f, e.charts[i], 4 + Len(f.bpms) + e.slack)
                  ELSE IF k = "set_header" THEN e.set.off = f.off /\ e.set.title = e.hdr_title /\ e.set.artist = e.hdr_artist
                  ELSE \A i \in 1..n : per(i)[k] ]
 
